@@ -1429,6 +1429,32 @@ func ruleEntryApplied(r *Report) {
 		return false, false
 	})...)
 	for _, h := range heads {
+		// a skip reason excuses THIS entry, not the rest of the batch: from inside the loop body the
+		// function is left only through the loop header (the range being exhausted)
+		var hdr *ssa.BasicBlock
+		for b := h.Block(); b != nil; b = b.Idom() {
+			isHeader := false
+			for _, pr := range b.Preds {
+				if b.Dominates(pr) {
+					isHeader = true
+				}
+			}
+			if isHeader {
+				hdr = b
+				break
+			}
+		}
+		if hdr != nil {
+			inHdr := map[ssa.Instruction]bool{}
+			for _, in := range hdr.Instrs {
+				inHdr[in] = true
+			}
+			if reach, path := (Search{Fn: fn, From: h, Target: isReturn, Avoid: anyOf(inHdr)}).Run(); reach {
+				r.BadPath(rule, "deleteRecords/batch-not-abandoned", h.Pos(), "the loop over a batch of freelist entries can be left from inside its body (break/return) instead of moving on to the next entry: the remaining entries of the batch are not applied, yet the hand-over file is consumed — those locations are never marked deleted and never reclaimed (the batch is sorted by absolute position, so entries of later files follow an out-of-range one)", path)
+			} else {
+				r.Ok(rule, "deleteRecords/batch-not-abandoned", h.Pos(), "the batch loop is only left when the batch is exhausted")
+			}
+		}
 		reach, path := Search{Fn: fn, From: h, Target: isInstr(h), Avoid: anyOf(writes), AvoidEdges: mkEdgeSet(allowed)}.Run()
 		if reach {
 			r.BadPath(rule, "deleteRecords/skip-reasons", h.Pos(), "a freelist entry can be passed over without being applied and without any of the stated reasons (file unreadable, offset out of range, already deleted, size mismatch): the hand-over file is consumed all the same, so that location is never presented to the collector again and its space is never reclaimed", path)
@@ -1436,5 +1462,5 @@ func ruleEntryApplied(r *Report) {
 			r.Ok(rule, "deleteRecords/skip-reasons", h.Pos(), "an entry is skipped only for a stated reason")
 		}
 	}
-	r.Min(rule, 1)
+	r.Min(rule, 2)
 }
